@@ -79,6 +79,9 @@ type scenario struct {
 	nc        bool   // generator built with a nil signature cache
 	uc        bool   // private chain copy opened with a zero-sized utxo cache (flush on every block)
 	en        uint64 // extra nonce used by the update check (0: default)
+	unow      int64  // clock at the time of UpdateBlockTime (0: now + 31)
+	diffObs   string // rendered by observe
+	dp, hist  string // difficulty parameters and header history (tip first) for worlds with retargeting
 	now        int64
 	addr       bool
 	upd        bool // connect the time/extra-nonce updated block instead of the original one
@@ -177,6 +180,12 @@ func (s *scenario) line() string {
 	}
 	if s.en != 0 {
 		fmt.Fprintf(&b, " en=%d", s.en)
+	}
+	if s.unow != 0 {
+		fmt.Fprintf(&b, " unow=%d", s.unow)
+	}
+	if s.dp != "" {
+		fmt.Fprintf(&b, " dp=%s hist=%s", s.dp, s.hist)
 	}
 	for _, t := range s.txs {
 		b.WriteString(" tx=")
@@ -324,6 +333,12 @@ func parseScenario(f []string) *scenario {
 			s.uc = v == "1"
 		case "en":
 			s.en = puint(v)
+		case "unow":
+			s.unow = pint(v)
+		case "dp":
+			s.dp = v
+		case "hist":
+			s.hist = v
 		case "ka":
 			s.ka = int(pint(v))
 			s.two = true
@@ -384,16 +399,16 @@ func parseScenario(f []string) *scenario {
 func (s *scenario) chainTimes() []int64 {
 	ts := []int64{regtestGenesisTime}
 	for h := 1; h <= worldBlocks; h++ {
-		ts = append(ts, worldT0+worldSpacing*int64(h))
+		ts = append(ts, worldT0+spacing(s.world)*int64(h))
 	}
 	if s.reorged() {
 		ts = ts[:s.roF+1]
 		for i := 1; i <= s.roK; i++ {
-			ts = append(ts, worldT0+worldSpacing*int64(s.roF+i)+7)
+			ts = append(ts, worldT0+spacing(s.world)*int64(s.roF+i)+7)
 		}
 	}
 	for i := 0; i < s.fwd; i++ {
-		ts = append(ts, worldT0+worldSpacing*int64(len(ts))+13)
+		ts = append(ts, worldT0+spacing(s.world)*int64(len(ts))+13)
 	}
 	return ts
 }
@@ -426,8 +441,8 @@ func (s *scenario) deriveFacts() {
 	last := append([]int64{}, ts[tip+1-n:]...)
 	sort.Slice(last, func(i, j int) bool { return last[i] < last[j] })
 	s.mtp = last[len(last)/2]
-	s.seg = s.world == 0
-	s.csv = s.world == 0
+	s.seg = s.world != 1
+	s.csv = s.world != 1
 	s.halving = worldHalving
 	s.maturity = worldMaturity
 	cb := s.baseCoinbase()
